@@ -31,6 +31,16 @@ def nontrivial(sc, trace, info):
     return acts >= 6 and (len(times) >= 2 or len(trace) >= 4)
 
 
+def unclassified(mid):
+    """register (once) and return the id of monitor `mid` restricted to failures that are not known findings of
+    another property: used when a property borrows another property's monitor for one of its own clauses"""
+    name = mid + '!'
+    if name not in monitors.MONITORS:
+        base = monitors.MONITORS[mid]
+        monitors.MONITORS[name] = lambda sc, tr, probes, info: [(e, f) for (e, f) in base(sc, tr, probes, info) if f is None]
+    return name
+
+
 def run(ctx, families, monitor_ids, extra_scenarios=(), classify=None, model=True):
     """families: list of (profile, n_quick, n_thorough, kwargs)"""
     scs, tags = [], []
